@@ -137,3 +137,18 @@ def best_single_line_seeds(max_per_codemod: int = 2) -> dict[str, list[tuple[See
         if cands:
             out[cid] = [(c[2], c[3]) for c in cands[:max_per_codemod]]
     return out
+
+
+def results_for_cli(tool: str | None, results: str) -> str:
+    """The repository's tests hand result files straight to the detector; the CLI first detects the SARIF tool from
+    runs[].tool.driver.name, which the test fixtures often omit."""
+    if tool != "semgrep":
+        return results
+    try:
+        doc = json.loads(results)
+    except ValueError:
+        return results
+    for run in doc.get("runs", []):
+        drv = run.setdefault("tool", {}).setdefault("driver", {})
+        drv.setdefault("name", "Semgrep OSS")
+    return json.dumps(doc)
